@@ -115,6 +115,8 @@ pub struct PathState {
     pub fallback_used: u64,
     lin_cache: HashMap<u32, bool>,
     pub lin_stage_hits: u64,
+    /// obligations already discharged on this path (the path condition only grows)
+    proved: std::collections::HashSet<u32>,
     /// fork on "denominator == 0" (IEEE-faithful) or assume denominators non-zero (recorded)
     pub fork_div_zero: bool,
     pub assumed_nonzero: u64,
@@ -483,7 +485,7 @@ pub fn assume(c: u32) {
 pub fn prove(name: &str, c: u32, strong_neg: Option<u32>) {
     with_st(|st| {
         let t0 = st.solver.seconds + st.solver2.seconds;
-        if c == C_TRUE {
+        if c == C_TRUE || st.proved.contains(&c) || st.memo.get(&c) == Some(&true) {
             st.obligations.push(ObRecord {
                 name: name.to_string(),
                 status: ObStatus::Discharged,
@@ -508,7 +510,10 @@ pub fn prove(name: &str, c: u32, strong_neg: Option<u32>) {
             trivial: false,
         };
         match v {
-            Verdict::Unsat => rec.status = ObStatus::Discharged,
+            Verdict::Unsat => {
+                rec.status = ObStatus::Discharged;
+                st.proved.insert(c);
+            }
             Verdict::Unknown => rec.status = ObStatus::Undecided,
             Verdict::Sat => {
                 rec.status = ObStatus::Candidate;
@@ -639,6 +644,7 @@ pub fn run_path(cfg: &Cfg, tape: Vec<bool>, body: &(dyn Fn() + Sync), want_pc_mo
         fallback_used: 0,
         lin_cache: HashMap::new(),
         lin_stage_hits: 0,
+        proved: std::collections::HashSet::new(),
         fork_div_zero: true,
         assumed_nonzero: 0,
         log: vec![],
